@@ -91,8 +91,11 @@ func (o *oracle) readTs() uint64 {
 	// Wait for all txns which have no conflicts, have been assigned a commit
 	// timestamp and are going through the write to value log and LSM tree
 	// process. Not waiting here could mean that some txns which have been
-	// committed would not be read.
-	y.Check(o.txnMark.WaitForMark(context.Background(), readTs))
+	// committed would not be read. Once the oracle has been stopped (the DB is closed) no commit
+	// is applied any more, so there is nothing left to wait for.
+	if err := o.txnMark.WaitForMark(context.Background(), readTs); err != y.ErrWaterMarkStopped {
+		y.Check(err)
+	}
 	verifhook.Ev("readts.granted", readTs, 0)
 	return readTs
 }
